@@ -9,7 +9,7 @@ EXPLANATION = (
     "format_code result, or from the unchanged input on the should_skip edge, and never on the error edge; (R-FS) "
     "no file-system mutation is reachable from format_string; the library never touches stdout; (R-IGNOREARG) both questions `is this path ignored?` (stdin path, walked file) pass opt.search_parent_directories itself. Not decided: "
     "partial writes (OS), exit code beyond R-EXIT."
-    "Later rounds: (R-CFG(e)) overrides are applied last on the stdin fallback too; (R-CFG(k)); (R-STDOUT) a println! of format runs only under output formats that are refused without --check; (R-EXACTREAD). Rounds 17-19: (R-IGNOREMATCH); (R-ERRSTATUS via C13/C14 rules is not repeated here).")
+    "Later rounds: (R-CFG(e)) overrides are applied last on the stdin fallback too; (R-CFG(k)); (R-STDOUT) a println! of format runs only under output formats that are refused without --check; (R-EXACTREAD). Rounds 17-19: (R-IGNOREMATCH); (R-ERRSTATUS via C13/C14 rules is not repeated here). Rounds 20-21: no env_logger target other than stderr.")
 ASSUMPTIONS = ["std::io::Write::write_all writes exactly its argument or reports an error",
                "rustc MIR and Instance::try_resolve are trusted"]
 
